@@ -450,6 +450,11 @@ class DocGen:
                 out.append(self.spread(parent, depth))
         if rng.random() < 0.35:
             out.extend(self.exclusive_merge(parent))
+        sps = [x for x in out if x["k"] == "spread"]
+        if sps and rng.random() < 0.3:
+            # the same fragment spread again (adjacent or separated), with its own directives
+            again = {"k": "spread", "name": rng.choice(sps)["name"], "dirs": self.dirs_for("FRAGMENT_SPREAD")}
+            out.insert(rng.randint(0, len(out)), again)
         # same-key merges: repeat a field verbatim (possibly with another sub selection)
         if rng.random() < 0.25:
             fs = [x for x in out if x["k"] == "field"]
@@ -596,7 +601,10 @@ class DocGen:
 
 
 def gen_document(rng, schema):
-    return DocGen(rng, schema).document()
+    doc = DocGen(rng, schema).document()
+    if rng.random() < 0.6:
+        doc = decorate_sole_use(rng, doc)
+    return doc
 
 
 # ------------------------------------------------------- tree navigation
@@ -781,12 +789,134 @@ def namespace_collision_forms(rng):
     return out
 
 
+def repeated_spread_forms(rng):
+    """(name, label or None, order, [definitions]) -- one fragment spread 2-3 times in a fragment
+    definition / an operation, adjacent or separated, at the same or a nested level, the
+    first or the last occurrence carrying a directive that matters to a rule ordered
+    after NoFragmentCycles (a SkipNode of one rule hides the node from the later ones)"""
+    out = []
+    decorations = [("include-var", None, {"name": "include", "args": [["if", ["var", "flag"]]]}),
+                   ("unknown-directive", 18, {"name": "nope", "args": []}),
+                   ("ill-typed-argument", 22, {"name": "skip", "args": [["if", ["str", "yes"]]]}),
+                   ("undefined-variable", 16, {"name": "skip", "args": [["if", ["var", "undefinedv"]]]}),
+                   ("missing-argument", 23, {"name": "skip", "args": []})]
+
+    def sp(n, dirs=None):
+        return {"k": "spread", "name": n, "dirs": dirs or []}
+
+    leaf = {"kind": "frag", "name": "Rf", "on": "AnchorObj", "dirs": [], "sels": [_leaf(None, "id")]}
+    for dname, label, deco in decorations:
+        for host in ("fragment", "operation"):
+            for shape in ("adjacent", "separated", "three", "nested"):
+                for order in (0, 1):
+                    plain, marked = sp("Rf"), sp("Rf", [copy.deepcopy(deco)])
+                    pair = [plain, marked] if order == 0 else [marked, plain]
+                    if shape == "adjacent":
+                        sels = pair
+                    elif shape == "separated":
+                        sels = [pair[0], _leaf("zn", "name"), pair[1]]
+                    elif shape == "three":
+                        sels = [pair[0], sp("Rf"), _leaf("zn", "name"), pair[1]]
+                    else:
+                        sels = [pair[0], {"k": "field", "alias": None, "name": "self", "args": [], "dirs": [],
+                                          "sels": [_leaf("zc", "count"), pair[1]]}]
+                    vars_ = [{"name": "flag", "type": "Boolean!", "default": None}] if dname == "include-var" else []
+                    a = _anchor_field(rng)
+                    a["alias"] = "zr"
+                    if host == "fragment":
+                        a["sels"] = [sp("Host")]
+                        defs = [{"kind": "op", "op": "query", "name": "RQ", "vars": vars_, "dirs": [], "sels": [a]},
+                                {"kind": "frag", "name": "Host", "on": "AnchorObj", "dirs": [], "sels": sels},
+                                copy.deepcopy(leaf)]
+                    else:
+                        a["sels"] = sels
+                        defs = [{"kind": "op", "op": "query", "name": "RQ", "vars": vars_, "dirs": [], "sels": [a]},
+                                copy.deepcopy(leaf)]
+                    out.append(("%s-%s-%s" % (dname, host, shape), label, order, defs))
+    return out
+
+
+def decorate_sole_use(rng, doc):
+    """adds, at 1-2 random nodes of a valid document (field, spread, inline fragment,
+    operation or fragment definition), a directive whose variable is used nowhere else and
+    is declared by every operation reaching the node: if any rule silently skips the node
+    for the rules after it, the variable is reported unused by the default validator only"""
+    d = copy.deepcopy(doc)
+    spreads = {}
+    for df in d["defs"]:
+        if df["kind"] == "raw":
+            continue
+        acc = set()
+
+        def walk(sels):
+            for x in sels:
+                if x["k"] == "spread":
+                    acc.add(x["name"])
+                elif x.get("sels") is not None:
+                    walk(x["sels"])
+
+        walk(df["sels"])
+        spreads[id(df)] = acc
+    by_name = {df["name"]: df for df in d["defs"] if df["kind"] == "frag"}
+
+    def reaching_ops(holder):
+        if holder["kind"] == "op":
+            return [holder]
+        out = []
+        for o in ops_of(d):
+            seen, todo = set(), list(spreads[id(o)])
+            while todo:
+                n = todo.pop()
+                if n in seen or n not in by_name:
+                    continue
+                seen.add(n)
+                todo.extend(spreads[id(by_name[n])])
+            if holder["name"] in seen:
+                out.append(o)
+        return out
+
+    for k in range(rng.randint(1, 2)):
+        var = "zsole%d" % k
+        if rng.random() < 0.25:
+            holder = rng.choice([x for x in d["defs"] if x["kind"] != "raw"])
+            if any(dr["name"] == "anchor" for dr in holder["dirs"]):
+                continue
+            holder["dirs"].append({"name": "anchor", "args": [["n", ["int", "1"]], ["t", ["var", var]]]})
+            vtype = "String"
+            if holder["kind"] == "op":
+                holder["explicit"] = True
+        else:
+            sels, holder = rng.choice(all_selsets(d))
+            node = rng.choice(sels)
+            if any(dr["name"] == "include" for dr in node["dirs"]):
+                continue
+            node["dirs"].append({"name": "include", "args": [["if", ["var", var]]]})
+            vtype = "Boolean!"
+        ops = reaching_ops(holder)
+        if not ops:
+            return doc
+        for o in ops:
+            o["vars"].append({"name": var, "type": vtype, "default": None})
+    return d
+
+
 # --------------------------------------------------- labelled violators
 def violate(rng, schema, doc, label):
     """returns a copy of doc breaking rule `label` (1-based index into RULES)
     at one place, or None when not applicable"""
     d = copy.deepcopy(doc)
     ops, frs = ops_of(d), frags_of(d)
+    if label in (16, 18, 22, 23) and rng.random() < 0.3:
+        forms = [f for f in repeated_spread_forms(rng) if f[1] == label]
+        taken = {x.get("name") for x in d["defs"]}
+        _n, _l, _o, defs = rng.choice(forms)
+        if not any(x["name"] in taken for x in defs):
+            for o in ops:
+                if o["name"] is None:
+                    o["name"] = "ZAnon"
+            for x in defs:
+                d["defs"].insert(rng.randint(0, len(d["defs"])), x)
+            return d
     if label in (12, 16, 17) and rng.random() < 0.4:
         forms = [f for f in namespace_collision_forms(rng) if f[1] == label]
         taken = {x.get("name") for x in d["defs"]}
@@ -1135,6 +1265,8 @@ def special_mutants(rng):
     for _name, defs in variable_position_forms(rng):
         out.append({"defs": defs})
     for _name, _label, defs in namespace_collision_forms(rng):
+        out.append({"defs": defs})
+    for _name, _label, _order, defs in repeated_spread_forms(rng):
         out.append({"defs": defs})
     # fragments spread inside their own nested same-key fields (the fields-vs-fragment
     # comparison of OverlappingFieldsCanBeMerged must be memoised to terminate)
